@@ -557,7 +557,7 @@ fn set_lag(lag: u32) {
 /// Windows whose length is not a multiple of the access width: the notify window is used with
 /// 16-bit writes and the device-configuration window with accesses of up to 32 bits, so a length
 /// that is rounded *up* to whole elements lets accesses run past the advertised window.
-/// Every notification and every configuration access of width 1, 2, 4 at every aligned offset up
+/// Every notification and every configuration access of width 1, 2, 4 (and of 3, 6 and 8 bytes as arrays) at every aligned offset up
 /// to 8 bytes past the window is issued; any MMIO access not wholly inside a window is a violation,
 /// and so is a configuration access reported successful although it does not lie inside the window.
 pub fn run_odd_windows(bars: &[(usize, BarKind, u64)], notify_len: u32, mult: u32, devcfg_len: u32) -> (u64, Vec<(String, String)>) {
@@ -588,8 +588,11 @@ pub fn run_odd_windows(bars: &[(usize, BarKind, u64)], notify_len: u32, mult: u3
     }
     for off in 0..(devcfg_len as usize + 9) {
         macro_rules! rd {
-            ($ty:ty) => {{
-                if off % std::mem::size_of::<$ty>() == 0 {
+            ($ty:ty) => {
+                rd!($ty, std::mem::size_of::<$ty>(), 0x5a as $ty)
+            };
+            ($ty:ty, $align:expr, $val:expr) => {{
+                if off % $align == 0 {
                     b.trace.borrow_mut().clear();
                     let r = crate::util::catch(|| t.read_config_space::<$ty>(off));
                     let tr: Vec<RegAccess> = std::mem::take(&mut *b.trace.borrow_mut());
@@ -601,7 +604,7 @@ pub fn run_odd_windows(bars: &[(usize, BarKind, u64)], notify_len: u32, mult: u3
                         }
                     }
                     b.trace.borrow_mut().clear();
-                    let r = crate::util::catch(|| t.write_config_space::<$ty>(off, 0x5a as $ty));
+                    let r = crate::util::catch(|| t.write_config_space::<$ty>(off, $val));
                     let tr: Vec<RegAccess> = std::mem::take(&mut *b.trace.borrow_mut());
                     let ctx = format!("write_config_space::<{}>({})", stringify!($ty), off);
                     stray(&tr, &ctx, &mut out);
@@ -617,6 +620,11 @@ pub fn run_odd_windows(bars: &[(usize, BarKind, u64)], notify_len: u32, mult: u3
         rd!(u8);
         rd!(u16);
         rd!(u32);
+        // Values wider than a register (a MAC address, a 64-bit field read as two words): they
+        // may start inside the window and end outside it.
+        rd!([u8; 3], 1, [0x5au8; 3]);
+        rd!([u8; 6], 1, [0x5au8; 6]);
+        rd!([u32; 2], 4, [0x5a5a_5a5au32; 2]);
     }
     b.trace.borrow_mut().clear();
     std::mem::forget(t);
